@@ -43,7 +43,9 @@ LEVEL_TEXT = ('Machine-checked: for programs of any size, a permutation that kee
               'site/phase table (generated_calls_are_the_table), and every program made of calls of the regenerated directives satisfies '
               'H2 (generated_programs_H2); the regenerated registration path equals its reference (generated_registration_path_is_model).')
 LEVEL_NOTE = ('PARTIAL by design: equality of whole applications is validated (metamorphic run), not proved. H2 rests on the declared '
-              'read table (what the action CALLABLES read/write: monitored at run time, not translated). Translated mechanically: which '
+              'read table (what the action CALLABLES read/write: monitored at run time, not translated; their text is pinned, names '
+              'blanked, in closure_pins.json). Members of TopologicalSorter containers placed by explicit constraints are modelled as '
+              'commuting (sorted-insertion) writes; unconstrained ones as appends. Translated mechanically: which '
               'actions each directive declares, and the queuing/autocommit path of Configurator.action. Not translated (shape-pinned): '
               'execute_actions/resolveConflicts (C04 model), Configurator.include, setup_registry, MultiView.add, PredicateList.add/make, '
               'view derivers. Intermediate commits are validated only.')
@@ -72,9 +74,12 @@ def _sites():
 
 
 # ------------------------------------------------------------ static expansion of statements into actions
-def expand(st, customs):
-    """-> list of actions {site, disc, reads, dreads, writes, acc} in creation order"""
+def expand(st, customs, ranks=None):
+    """-> list of actions {site, disc, reads, dreads, writes, acc} in creation order.
+    ranks: {statement id: position} of the members of constrained containers (G.ranks_of)"""
     k = st['k']
+    ranks = ranks or {}
+    ranked = st['id'] in ranks
 
     def A(site, disc, reads=(), dreads=(), writes=(), acc=0):
         return {'site': site, 'disc': disc, 'reads': list(reads), 'dreads': list(dreads), 'writes': list(writes), 'acc': acc}
@@ -85,15 +90,16 @@ def expand(st, customs):
 
     def view(vst):
         from .world import triad
-        reads = [('defperm', ''), ('policy', ''), ('csrfopts', ''), ('mapper', ''), ('derivers', ''), ('accept', ''),
-                 ('renderer', '')]
+        reads = [('defperm', ''), ('policy', ''), ('csrfopts', ''), ('mapper', ''), ('derivers', ''), ('deriversc', ''),
+                 ('accept', ''), ('acceptc', ''), ('renderer', '')]
         rt = vst.get('route') if vst['k'] == 'view' else '__%s/' % vst['name']
         if rt:
             reads.append(('riface', rt))
         from .world import slotkey
         disc = ('view', triad(vst), vst.get('method'), vst.get('param'), vst.get('vp'), vst.get('vq'),
                 vst.get('xhr'), vst.get('header'), vst.get('accept'))
-        return [A('add_view#0', disc, reads=reads, dreads=[('preds', 'view'), ('derivers', '')],
+        return [A('add_view#0', disc, reads=reads,
+                  dreads=[('preds', 'view'), ('predsc', 'view'), ('derivers', ''), ('deriversc', '')],
                   writes=[('view', slotkey(vst))], acc=view_order(vst, customs))]
 
     if k == 'raw':
@@ -103,7 +109,7 @@ def expand(st, customs):
         for site in RAW_SITES[st['call']]:
             row = T.DECLARED[site]
             out.append(A(site, None if site in none_disc else ('raw', site), reads=[(f, '') for f in row['reads']],
-                         writes=[(f, '') for f, _ in row['writes']]))
+                         writes=[(f, '') for f, m in row['writes'] if m == row['writes'][0][1]]))
         return out
     if k == 'route':
         return route(st['name'])
@@ -131,15 +137,21 @@ def expand(st, customs):
         site = 'add_request_method#1' if st.get('mode') in ('property', 'reify') else 'add_request_method#2'
         return [A(site, ('reqext', st['name']), writes=[('reqext', st['name'])])]
     if k == 'vpred':
-        return [A('_add_predicate#0', ('view option', st['name']), writes=[('preds', 'view')])]
+        return [A('_add_predicate#0', ('view option', st['name']),
+                  writes=[('predsc' if ranked else 'preds', 'view')], acc=ranks.get(st['id'], 0))]
+    if k == 'acceptorder':
+        return [A('add_accept_view_order#0', ('accept view order', st['value']),
+                  writes=[('acceptc' if ranked else 'accept', '')], acc=ranks.get(st['id'], 0))]
     if k == 'rpred':
         return [A('_add_predicate#0', ('route option', st['name']), writes=[('preds', 'route')])]
     if k == 'deriver':
-        return [A('add_view_deriver#0', ('view deriver', st['name']), writes=[('derivers', '')])]
+        return [A('add_view_deriver#0', ('view deriver', st['name']),
+                  writes=[('deriversc' if ranked else 'derivers', '')], acc=ranks.get(st['id'], 0))]
     if k == 'sub':
-        return [A('add_subscriber#0', None, reads=[('preds', 'subscriber')], writes=[('subs', '')])]
+        return [A('add_subscriber#0', None, reads=[('preds', 'subscriber'), ('predsc', 'subscriber')], writes=[('subs', '')])]
     if k == 'tween':
-        return [A('_add_tween#0', ('tween', st['name']), writes=[('tweens', '')])]
+        return [A('_add_tween#0', ('tween', st['name']),
+                  writes=[('tweensc' if ranked else 'tweens', '')], acc=ranks.get(st['id'], 0))]
     raise ValueError(k)
 
 
@@ -153,7 +165,7 @@ DIRECTIVES = ['add_subscriber', 'add_subscriber_predicate', 'add_response_adapte
               'add_view_predicate', 'add_accept_view_order', 'add_view_deriver', 'set_view_mapper', 'add_forbidden_view',
               'add_notfound_view', 'add_exception_view', 'add_static_view', 'add_cache_buster', 'static_info_add',
               'static_info_add_cache_buster']
-KIND_DIRECTIVE = {'route': 'add_route', 'renderer': 'add_renderer', 'policy': 'set_security_policy',
+KIND_DIRECTIVE = {'acceptorder': 'add_accept_view_order', 'route': 'add_route', 'renderer': 'add_renderer', 'policy': 'set_security_policy',
                   'defperm': 'set_default_permission', 'csrf': 'set_default_csrf_options', 'rootf': 'set_root_factory',
                   'sessf': 'set_session_factory', 'reqf': 'set_request_factory', 'reqm': 'add_request_method',
                   'static': 'add_static_view', 'vpred': 'add_view_predicate', 'rpred': 'add_route_predicate',
@@ -177,18 +189,32 @@ def directive_of(st):
     return KIND_DIRECTIVE[st['k']], flags
 
 
-def _customs(case):
-    return sorted(set(st['name'] for st in case['stmts'] if st['k'] == 'vpred'))
+def _ranks(case):
+    return G.ranks_of(case['stmts']) or {}
+
+
+def _customs(case, declared=None):
+    """custom view predicates in predicate-list order: by their constraints when they have any, else in the order
+    their actions run (= declaration order of the variant, [declared]); canonical (sorted) when no variant is meant"""
+    ps = [st for st in case['stmts'] if st['k'] == 'vpred' and 'shadow_of' not in st]
+    ranks = _ranks(case)
+    if any(st['id'] in ranks for st in ps):
+        return [st['name'] for st in sorted(ps, key=lambda st: ranks.get(st['id'], 0))]
+    if declared is not None:
+        ids = {st['id']: st['name'] for st in ps}
+        return [ids[i] for i in declared if i in ids]
+    return sorted(set(st['name'] for st in ps))
 
 
 def _layout(case):
     """instance / discriminator numbering shared by to_wire and from_wire"""
     customs = _customs(case)
+    ranks = _ranks(case)
     acts = {}
     insts, discs = {}, {}
     keys = []
     for st in case['stmts']:
-        acts[st['id']] = expand(st, customs)
+        acts[st['id']] = expand(st, customs, ranks)
         for a in acts[st['id']]:
             for f, i in a['reads'] + a['dreads'] + a['writes']:
                 insts.setdefault((f, i), None)
@@ -234,13 +260,14 @@ def to_wire(case):
                        a['acc']])
     vs = []
     stmts = {s['id']: s for s in case['stmts']}
+    ranks = _ranks(case)
     for body in case['variants']:
         nodes, places = _tree(body)
         # custom view predicates enter the predicate list in the order their (phase 1) actions run = declaration order
-        customs = [stmts[i]['name'] for i, _ in places if stmts[i]['k'] == 'vpred' and 'shadow_of' not in stmts[i]]
+        customs = _customs(case, [i for i, _ in places])
         pl = []
         for sid, node in places:
-            for j, a in enumerate(expand(stmts[sid], customs)):
+            for j, a in enumerate(expand(stmts[sid], customs, ranks)):
                 pl.append([sid * 8 + j, node, a['acc']])
         # commit markers (top level only): number of actions declared before each
         cuts, n = [], 0
@@ -260,7 +287,7 @@ def to_wire(case):
     return [ws, [num[k] for k in keys], vs, dirs]
 
 
-OBSERVED = ('routes', 'riface', 'view', 'renderer', 'policy', 'mapper', 'defperm', 'csrfopts', 'rootf', 'sessf', 'reqf', 'reqext',
+OBSERVED = ('predsc', 'deriversc', 'tweensc', 'acceptc', 'accept', 'routes', 'riface', 'view', 'renderer', 'policy', 'mapper', 'defperm', 'csrfopts', 'rootf', 'sessf', 'reqf', 'reqext',
             'preds', 'derivers', 'subs', 'tweens', 'static')
 
 
@@ -270,7 +297,9 @@ def _keyname(k):
         return 'view:' + i
     if f in ('riface', 'renderer', 'reqext', 'preds'):
         return '%s:%s' % (f, i)
-    return f
+    if f == 'predsc':
+        return 'preds:%s' % i
+    return {'deriversc': 'derivers', 'tweensc': 'tweens', 'acceptc': 'accept'}.get(f, f)
 
 
 def from_wire(case, raw):
@@ -322,6 +351,8 @@ def valid(case):
                 key = G.view_key(st)
             elif st['k'] in ('route', 'renderer', 'reqm', 'vpred', 'rpred', 'deriver', 'tween', 'static'):
                 key = (st['k'], st.get('name'))
+            elif st['k'] == 'acceptorder':
+                key = ('acceptorder', st['value'])
             elif st['k'] == 'raw':
                 key = ('raw', st['call'])
             elif st['k'] == 'sub':
@@ -333,7 +364,7 @@ def valid(case):
             seen.add(key)
         if not case.get('illformed') and not G.wellformed(case['stmts']):
             return False      # (a shrink step must not turn a well-formed program into one referring to undeclared things)
-        cls = {s['id']: G.SEQ_KINDS.get(s['k']) for s in case['stmts']}
+        cls = G.seq_class(case['stmts'])
         base = None
         for body in case['variants']:
             fl = G.flatten(body)
@@ -359,7 +390,7 @@ def _deps(case):
     out = {}
     for st in case['stmts']:
         rd, wr = set(), set()
-        for a in expand(st, customs):
+        for a in expand(st, customs, _ranks(case)):
             rd |= set(a['reads']) | set(a['dreads'])
             wr |= set(a['writes'])
         out[st['id']] = (rd, wr)
@@ -376,7 +407,7 @@ def closed_prefix(case, first, shadow=()):
         for j, (_, wr) in deps.items():
             if j not in first and j not in shadow and deps[i][0] & wr:
                 return False
-    cls = {s['id']: G.SEQ_KINDS.get(s['k']) for s in case['stmts']}
+    cls = G.seq_class(case['stmts'])
     order = [s['id'] for s in case['stmts']]
     for c in ('route', 'sub', 'tween'):
         members = [i for i in order if cls[i] == c and i not in shadow]
@@ -430,7 +461,7 @@ def add_commits(rng, case):
         return case
     deps = _deps(case)
     ids = [s['id'] for s in case['stmts']]
-    cls = {s['id']: G.SEQ_KINDS.get(s['k']) for s in case['stmts']}
+    cls = G.seq_class(case['stmts'])
     variants = list(case['variants'])
     for j in range(1, len(variants)):
         if rng.random() > 0.35:
